@@ -1,21 +1,22 @@
 (* C01/C07 — T1 (layout_wf_reachable), groups_wf and the refutations of the unconditioned statements *)
 From Coq Require Import ZArith List Bool Arith Lia.
 From Acme.C01 Require Import Layout State Model ProofsLayout ProofsInv Refuted.
+From Acme.C07 Require Import Proofs.
 Import ListNotations.
 Open Scope Z_scope.
 
-Lemma t1_layout_wf : forall ops, ok_hist ops -> forall m,
+Lemma t1_layout_wf : forall ops, ok_hist_w ops -> forall m,
   wf (8 * gbytes (run ops) m) (msg_view (run ops) m).
 Proof.
-  intros ops Hh m. pose proof (inv_reachable ops Hh) as H.
+  intros ops Hw m. pose proof (inv_reachable ops (ok_hist_of_w ops Hw)) as H.
   unfold msg_view. apply ok_wf. pose proof (a_ok _ H (LM m)) as Hok. cbn [lay lsz] in Hok.
   rewrite (a_lsize _ H m) in Hok. replace (8 * gbytes (run ops) m) with (gbytes (run ops) m * 8) by lia. exact Hok.
 Qed.
 
-Lemma t1_groups_wf : forall ops, ok_hist ops -> forall u g,
+Lemma t1_groups_wf : forall ops, ok_hist_w ops -> forall u g,
   wf (mux_gsize (run ops) u) (group_view (run ops) u g).
 Proof.
-  intros ops Hh u g. pose proof (inv_reachable ops Hh) as H.
+  intros ops Hw u g. pose proof (inv_reachable ops (ok_hist_of_w ops Hw)) as H.
   unfold group_view. apply ok_wf. exact (a_ok _ H (LG u g)).
 Qed.
 
